@@ -174,7 +174,15 @@ func visitInstr(fr *frame, instr ssa.Instruction) continuation {
 
 	case *ssa.UnOp:
 		x := fr.get(instr.X)
-		if instr.Op == token.MUL {
+		if instr.Op == token.ARROW {
+			ch, _ := x.(*chanv)
+			v, ok := i.chanRecv(fr, ch)
+			if instr.CommaOk {
+				fr.env[instr] = tuple{v, ok}
+			} else {
+				fr.env[instr] = v
+			}
+		} else if instr.Op == token.MUL {
 			p := fr.nilCheck(x.(*value))
 			i.onLoad(fr, instr, p)
 			fr.env[instr] = load(mustDeref(instr.X.Type()), p)
@@ -232,7 +240,8 @@ func visitInstr(fr *frame, instr ssa.Instruction) continuation {
 		panic(targetPanic{v: fr.get(instr.X)})
 
 	case *ssa.Send:
-		panic(unsupported{"channel send"})
+		ch, _ := fr.get(instr.Chan).(*chanv)
+		i.chanSend(fr, ch, fr.get(instr.X))
 
 	case *ssa.Store:
 		p := fr.nilCheck(fr.get(instr.Addr).(*value))
@@ -276,7 +285,8 @@ func visitInstr(fr *frame, instr ssa.Instruction) continuation {
 		i.spawn(fr, instr, fn, args)
 
 	case *ssa.MakeChan:
-		panic(unsupported{"channels"})
+		i.nextChanID++
+		fr.env[instr] = &chanv{id: i.nextChanID, cap: int(asInt64(fr.get(instr.Size))), elemT: instr.Type().Underlying().(*types.Chan).Elem()}
 
 	case *ssa.Alloc:
 		var addr *value
